@@ -7,4 +7,8 @@ RRepeats == {33}
 RFactors == {<<1, 2>>}
 ROps == {"Add", "Read", "Clear", "Reweight"}
 RInit == (1 :> NewStore("exact", 0))
+RSlotKeys == (1 :> {1, 3})
+RAsc == {}
+RDesc == {}
+RPairs == {}
 ====
